@@ -63,7 +63,35 @@ func applyNetPolicies(ctx context.Context, kc kubernetes.Interface, b *netPolBui
 		}
 	}
 
-	return err
+	if err != nil || len(policies) == 0 {
+		return err
+	}
+
+	// remove the policies of this lease that the current manifest no longer calls for: a service that
+	// stopped exposing ports globally must not keep them open to the outside
+	current := make(map[string]struct{}, len(policies))
+	for _, pol := range policies {
+		current[pol.Name] = struct{}{}
+	}
+	existing, err := kc.NetworkingV1().NetworkPolicies(b.ns()).List(ctx, metav1.ListOptions{
+		LabelSelector: akashManagedLabelName + "=true",
+	})
+	metricsutils.IncCounterVecWithLabelValues(kubeCallsCounter, "networking-policies-list", err)
+	if err != nil {
+		return err
+	}
+	for _, pol := range existing.Items {
+		if _, ok := current[pol.Name]; ok {
+			continue
+		}
+		err = kc.NetworkingV1().NetworkPolicies(b.ns()).Delete(ctx, pol.Name, metav1.DeleteOptions{})
+		metricsutils.IncCounterVecWithLabelValues(kubeCallsCounter, "networking-policies-delete", err)
+		if err != nil {
+			return err
+		}
+	}
+
+	return nil
 }
 
 // TODO: re-enable.  see #946
